@@ -270,13 +270,52 @@ contract('c:compute_union_field_offsets', cfile=CF,
 TAG_ARRAY = 15
 TAG_INTERFACE = 16
 
+# ---- ABI size / alignment of a type node: specification functions with their defining equations --------------
+def TKNOWN(t):
+    """the type has a known size"""
+
+
+def TSIZE(t):
+    """sizeof for the type node (defined when TKNOWN)"""
+
+
+def TALIGN(t):
+    """alignment for the type node (defined when TKNOWN)"""
+
+
+def IFACE_KNOWN(t):
+    """an interface type (named struct/union/enum/callback) resolves to something of known layout"""
+
+
+L8 = 'contracts.py.c08_offsets_c.'
+ABI_EQ = {
+    'pointer': 'implies(t.is_pointer != 0, TKNOWN(t) and TSIZE(t) == 8 and TALIGN(t) == 8)',
+    'array_known': 'implies(t.is_pointer == 0 and t.tag == TAG_ARRAY, TKNOWN(t) == (t.has_size != 0 and TKNOWN(t.parameter_type1)))',
+    'array_layout': 'implies(t.is_pointer == 0 and t.tag == TAG_ARRAY and t.has_size != 0 and TKNOWN(t.parameter_type1), '
+                    'TSIZE(t) == t.size * TSIZE(t.parameter_type1) and TALIGN(t) == TALIGN(t.parameter_type1))',
+    'interface': 'implies(t.is_pointer == 0 and t.tag == TAG_INTERFACE, TKNOWN(t) == IFACE_KNOWN(t))',
+    'basic': 'implies(t.is_pointer == 0 and t.tag != TAG_ARRAY and t.tag != TAG_INTERFACE, '
+             'TKNOWN(t) == (FFI(t.tag) is not G_ffi_type_void and FFI(t.tag) is not G_ffi_type_pointer) and '
+             'implies(TKNOWN(t), TSIZE(t) == FFI(t.tag).size and TALIGN(t) == FFI(t.tag).alignment))',
+    'sane': 'implies(TKNOWN(t) and (t.tag == TAG_INTERFACE and t.is_pointer == 0), TSIZE(t) >= 0 and TALIGN(t) in (1, 2, 4, 8, 16))',
+}
+ABI_AXIOMS = ' and '.join('(%s)' % v for v in ABI_EQ.values())
+contract(L8 + 'TKNOWN', params={'t': 'GIrNodeType'}, returns='bool', pure_keys=['t'], trusted=True,
+         ensures={'abi.' + k: v for k, v in ABI_EQ.items()},
+         note='defining equations of the ABI specification functions (System V x86-64)')
+contract(L8 + 'IFACE_KNOWN', params={'t': 'GIrNodeType'}, returns='bool', pure_keys=['t'], trusted=True)
+contract(L8 + 'TSIZE', params={'t': 'GIrNodeType'}, returns='int', pure_keys=['t'], trusted=True)
+contract(L8 + 'TALIGN', params={'t': 'GIrNodeType'}, returns='int', pure_keys=['t'], trusted=True)
+
+
+
+
 contract('c:get_interface_size_alignment',
          params={'build': 'GIrTypelibBuild', 'type': 'GIrNodeType', 'size': 'Cell', 'alignment': 'Cell', 'who': 'any'},
-         returns='int', trusted=True, modifies=['size.val', 'alignment.val', '*.size', '*.alignment', '*.offset', '*.storage_type'],
-         ensures={'ok': 'implies(result != 0, size.val >= 0 and alignment.val in (1, 2, 4, 8, 16))',
-                  'fail': 'implies(result == 0, size.val == -1 and alignment.val == -1)'},
-         note='verified below against its own body; recursion into _g_ir_node_compute_offsets is by contract')
-
+         returns='int', trusted=True, modifies=['size.val', 'alignment.val', '*.offset', '*.storage_type'],
+         ensures={'ok': 'implies(IFACE_KNOWN(type), result != 0 and size.val == TSIZE(type) and alignment.val == TALIGN(type))',
+                  'fail': 'implies(not IFACE_KNOWN(type), result == 0 and size.val == -1 and alignment.val == -1)'},
+         note='named types: layout computed by the recursion driver (assumed here)')
 
 def FFI(tag):
     """libffi descriptor chosen for a basic type tag (uninterpreted here; table obligation in girffi.c)"""
@@ -290,17 +329,12 @@ contract('c:gi_type_tag_get_ffi_type', params={'tag': 'int', 'is_pointer': 'int'
 contract('c:get_type_size_alignment', cfile=CF,
          params={'build': 'GIrTypelibBuild', 'type': 'GIrNodeType', 'size': 'Cell', 'alignment': 'Cell', 'who': 'any'},
          returns='int', props=('C08',),
-         modifies=['size.val', 'alignment.val', '*.val', '*.size', '*.alignment', '*.offset', '*.storage_type'],
-         requires=['size is not alignment'], raises={'AssertionError': 'True'},
+         modifies=['size.val', 'alignment.val', '*.val', '*.offset', '*.storage_type'],
+         requires=['size is not alignment'],
+         raises={'AssertionError': 'True'},
          ensures={
+             'C08.type.known_iff_abi_known': "(result != 0) == TKNOWN(type)",
+             'C08.type.size_and_alignment_are_the_abis': "implies(result != 0, size.val == TSIZE(type) and alignment.val == TALIGN(type))",
+             'C08.type.unknown_is_marked': "implies(result == 0, size.val == -1 and alignment.val == -1)",
              'C08.type.pointer_is_pointer_sized': "implies(type.is_pointer != 0, result == 1 and size.val == 8 and alignment.val == 8)",
-             'C08.type.array_without_size_unknown': "implies(type.is_pointer == 0 and type.tag == TAG_ARRAY and type.has_size == 0, "
-                                                    "result == 0 and size.val == -1 and alignment.val == -1)",
-             'C08.type.basic_from_ffi': "implies(type.is_pointer == 0 and type.tag != TAG_ARRAY and type.tag != TAG_INTERFACE and "
-                                        "FFI(type.tag) is not G_ffi_type_void and FFI(type.tag) is not G_ffi_type_pointer, "
-                                        "result == 1 and size.val == FFI(type.tag).size and alignment.val == FFI(type.tag).alignment)",
-             'C08.type.void_unknown': "implies(type.is_pointer == 0 and type.tag != TAG_ARRAY and type.tag != TAG_INTERFACE and "
-                                      "(FFI(type.tag) is G_ffi_type_void or FFI(type.tag) is G_ffi_type_pointer), "
-                                      "result == 0 and size.val == -1 and alignment.val == -1)",
-             'C08.type.failure_is_marked_unknown': "implies(result == 0, size.val == -1 and alignment.val == -1)",
          })
